@@ -33,6 +33,7 @@ Definition out_eqb (a b : out N N) : bool :=
   | OVal x, OVal y => optN_eqb x y
   | OKV None, OKV None => true
   | OKV (Some x), OKV (Some y) => kv_eqb x y
+  | OBool x, OBool y => Bool.eqb x y
   | _, _ => false
   end.
 
@@ -86,6 +87,8 @@ Definition flat_out (o : out N N) : list N :=
   | OVal (Some v) => [2%N; v]
   | OKV None => [3%N]
   | OKV (Some (k, v)) => [4%N; k; v]
+  | OBool false => [5%N]
+  | OBool true => [6%N]
   end.
 Definition flat_obs (x : obs) : list N :=
   flat_out (fst (fst x)) ++ [N.of_nat (snd (fst x)); N.of_nat (length (snd x))]
